@@ -116,7 +116,7 @@ def main():
                   "baseline_off_cmd": "cd /repo && /venv/bin/python -m pytest -q -p no:cacheprovider --timeout=900",
                   "source_commits": [], "add_only": True},
         "engines": [{"name": "pbt", "path": "/verif/check", "serves_properties": [c["property_id"] for c in checks],
-                     "kind_free_text": "Hypothesis 6.168 generators + complete enumeration of finite sub-domains + atheris (libFuzzer) secondary driver; independent reference models as oracles; 16-way process sharding"}],
+                     "kind_free_text": "Hypothesis 6.168 generators + complete enumeration of finite sub-domains + atheris (libFuzzer) secondary driver; coverage-directed (sys.monitoring signatures) and branch-distance (instrumented comparisons/divisions, in a forked child) search for aiming; harness-owned preemption scheduler (sys.settrace) and fork-differential for schedules and histories; independent reference models as oracles; 16-way process sharding"}],
         "checks": checks,
         "notes": "All checks read /repo's working tree directly (pure Python). Exit 0 held / 1 VIOLATION / 2 harness error. Known findings in /verif/known_findings.json.",
         "not_applicable": na,
